@@ -145,6 +145,40 @@ Definition format_column (p : prep) (schema : option str) (tname cname : str) : 
             end
   end.
 
+(* format_index(index) -> format_constraint -> truncate_and_render_index_name -> quote(name), for a plain
+   string name no longer than the dialect's max_identifier_length (validate_identifier passes) *)
+Definition format_index (p : prep) (iname : str) : res str := quote p iname.
+
+(* DDLCompiler._prepared_index_name(index, include_schema) where index.table.schema = schema:
+   the schema goes through quote_schema() (evaluated first), the name through format_index() *)
+Definition prepared_index_name (p : prep) (include_schema : bool) (schema : option str) (iname : str) : res str :=
+  match (if include_schema then schema else None) with
+  | Some (c :: s') =>
+      match quote p (c :: s') with
+      | RaiseIndexError => RaiseIndexError
+      | Ok qs => match format_index p iname with
+                 | Ok qi => Ok (qs ++ dot :: qi)
+                 | RaiseIndexError => RaiseIndexError
+                 end
+      end
+  | _ => format_index p iname
+  end.
+
+(* SQLite: CREATE INDEX <prepared name, schema included> ON <table, no schema> (k)   and   \nDROP INDEX <prepared name> *)
+Definition sqlite_create_index (p : prep) (schema : option str) (tname iname : str) : res str :=
+  match prepared_index_name p true schema iname with
+  | RaiseIndexError => RaiseIndexError
+  | Ok pi => match quote p tname with
+             | RaiseIndexError => RaiseIndexError
+             | Ok qt => Ok ([67; 82; 69; 65; 84; 69; 32; 73; 78; 68; 69; 88; 32] ++ pi ++ [32; 79; 78; 32] ++ qt ++ [32; 40; 107; 41])
+             end
+  end.
+Definition drop_index (p : prep) (schema : option str) (iname : str) : res str :=
+  match prepared_index_name p true schema iname with
+  | RaiseIndexError => RaiseIndexError
+  | Ok pi => Ok ([10; 68; 82; 79; 80; 32; 73; 78; 68; 69; 88; 32] ++ pi)
+  end.
+
 (* the dotted form of a list of components, each through quote() *)
 Fixpoint join_dot (l : list str) : str :=
   match l with
